@@ -102,4 +102,39 @@ theorem latch_needs_guard :
     (next f rerunStep ⟨none, 0⟩).1 = false ∧ err s1 = some 0 ∧ err (next f rerunStep s1).2 = some 1 := by
   decide
 
+/-- The hypothesis `QuietAbsorbing` is needed as well: a decoder proper that reports a quiet end and
+    later yields again (which none of the guards of the wrapper can prevent) is not sticky. For the
+    decoders without a model this hypothesis is exactly what stays *unproved* here and is only
+    searched by the life-cycle oracle of go/cmd/c05x ("next-true-after-false"). -/
+def flickerStep (n : Nat) : StepResult Nat Unit := { yielded := n % 2 == 1, raised := none, inner := n + 1 }
+
+theorem latch_needs_quiet_absorbing :
+    let f : Facts := ⟨true, true⟩
+    (next f flickerStep ⟨none, 0⟩).1 = false ∧
+    (next f flickerStep (next f flickerStep ⟨none, 0⟩).2).1 = true := by
+  decide
+
+/-- Full statement of the C05 life-cycle clause for a decoder of the repository, kept as a
+    documented `Prop`: it quantifies over the *actual* decoder proper of each Go decoder, of which
+    there is no model for RDF/XML, JSON-LD, RDFa, Microdata, HTML-embedded JSON-LD and the combined
+    HTML decoder. What is proved instead is `latch_all_decoders` (for every quiet-absorbing decoder
+    proper) and `latch_buffered` (index/length step); missing: a model of each decoder proper with a
+    proof that it is quiet-absorbing, never panics and terminates — search only (go/cmd/c05x). -/
+def C05LifeCycleFull : Prop :=
+  ∀ d ∈ Gen.LatchFacts.decoders, inScope d = true → d.guard ≠ .delegate →
+    ∀ (σ ε : Type) (step : σ → StepResult σ ε), Sticky (factsOf d) step
+
+/-- …and as stated (without a hypothesis on the decoder proper) it is false: -/
+theorem C05LifeCycleFull_needs_hypothesis : ¬ C05LifeCycleFull := by
+  intro h
+  have hex : Gen.LatchFacts.decoders.any (fun d => inScope d && d.guard != .delegate) = true := by decide
+  obtain ⟨d, hd, hp⟩ := List.any_eq_true.mp hex
+  have hp' : inScope d = true ∧ d.guard ≠ .delegate := by
+    simpa using hp
+  have := h d hd hp'.1 hp'.2 Nat Unit flickerStep ⟨none, 0⟩
+  have hfalse : (next (factsOf d) flickerStep ⟨none, 0⟩).1 = false := by
+    simp [next, flickerStep]
+  have h0 := (this hfalse 0).1
+  simp [next, iter, flickerStep] at h0
+
 end RdfModel.C05X
